@@ -13,3 +13,10 @@ Theorem C18_listeners_forward_every_update :
   map (fun r => (fst (fst r), listener_adapter_ok r)) listener_adapters = [("ClientStateListener", true); ("PortStateListener", true)].
 Proof. exact Rodbus.Proofs.FfiListenerProofs.listeners_forward. Qed.
 Print Assumptions C18_listeners_forward_every_update.
+
+(* FfiChannel::enable / disable (regenerated) are nothing but the try_send of the setting, and FfiChannel has no field besides
+   the queue sender: a call that returned Ok HAS queued the command, a call that returned TooManyRequests can simply be
+   repeated - there is no remembered "enabled" state that could get out of step with the channel task *)
+Theorem C18_settings_always_sent : ffi_channel_settings = ffi_settings_spec /\ ffi_channel_fields = ["tx"].
+Proof. exact Rodbus.Proofs.FfiListenerProofs.settings_always_sent. Qed.
+Print Assumptions C18_settings_always_sent.
